@@ -106,7 +106,7 @@ func compareStates(r *mon.Run, h *peer.HS, label map[string]string, rep map[stri
 
 // C11 — Client and server agree on every negotiated parameter and exported key.
 func TestC11(t *testing.T) {
-	r := mon.New("C11", "successful handshakes of the C10 grid (parrots, Golang, randomized, fingerprinted, custom; version/group/suite/ALPN/cert sweeps), half of them with renegotiation disabled through a documented extension edit, plus resumed connections over a shared cache and RemoveSNIExtension/IP-literal name cases: both ConnectionStates compared field by field (curve via reflection), ServerName against the SNI parsed from the wire, and ExportKeyingMaterial for 16 random (label, context, length) triples. distinct = (target family, dimension, value, resumed)")
+	r := mon.New("C11", "successful handshakes of the C10 grid (parrots, Golang, randomized, fingerprinted, custom; version/group/suite/ALPN/cert sweeps), half of them with renegotiation disabled through a documented extension edit, plus resumed connections over a shared cache, RemoveSNIExtension/IP-literal name cases, and accepted ECH offers (three AEADs, directly and after a HelloRetryRequest, fresh and over a shared session cache): both ConnectionStates compared field by field (curve via reflection), ServerName against the SNI parsed from the wire, and ExportKeyingMaterial for 16 random (label, context, length) triples. distinct = (target family, dimension, value, resumed)")
 	defer r.Finish(t)
 	var targets []Target
 	targets = append(targets, ParrotTargets(true)...)
@@ -225,6 +225,76 @@ func TestC11(t *testing.T) {
 		}
 	}
 	r.Count("resumed_compared", resumed)
+
+	// ECH: accepted offers (directly / after a HelloRetryRequest), fresh and resumed
+	{
+		f := peer.Fix()
+		type ej struct {
+			t    Target
+			aead uint16
+			hrr  bool
+		}
+		var ejobs []ej
+		for _, tg := range echCapableTargets() {
+			for _, aead := range []uint16{1, 2, 3} {
+				for _, hrr := range []bool{false, true} {
+					for k := 0; k < mon.Pick(2, 40); k++ {
+						ejobs = append(ejobs, ej{tg, aead, hrr})
+					}
+				}
+			}
+		}
+		parallel(len(ejobs), func(i int) {
+			j := ejobs[i]
+			rg := Sub("C11ech", i)
+			secret := fmt.Sprintf("inner-%x.example.test", rg.Int63())
+			public := "public.example.test"
+			leaf := f.CA.Leaf(peer.LeafOpts{Kind: "ecdsa", Names: []string{secret, public}})
+			key := peer.NewECHKey(uint8(rg.Intn(256)), public, []uint16{j.aead}, []uint8{0, 16, 64, 255}[rg.Intn(4)])
+			scfg := peer.ServerConfig()
+			scfg.Certificates = []tls.Certificate{leaf}
+			scfg.NextProtos = []string{"h2", "http/1.1"}
+			scfg.EncryptedClientHelloKeys = peer.ECHServerKeys(true, key)
+			if j.hrr {
+				probe, err := j.t.Probe("example.test")
+				if err != nil {
+					return
+				}
+				g := hrrGroupFor(probe)
+				if g == 0 {
+					g = tls.CurveP384
+				}
+				scfg.CurvePreferences = []tls.CurveID{g}
+			}
+			cache := tls.NewLRUClientSessionCache(4)
+			for round := 0; round < 2; round++ {
+				h := RunCase(j.t, GridCase{Server: scfg}, secret, func(c *tls.Config) {
+					c.EncryptedClientHelloConfigList = peer.ECHConfigList(key)
+					c.NextProtos = []string{"h2", "http/1.1"}
+					c.ClientSessionCache = cache
+				}, peer.Opts{})
+				val := fmt.Sprintf("aead%d/hrr=%v/round%d", j.aead, j.hrr, round)
+				if !h.OK() {
+					r.Count("ech_handshake_failed", 1)
+					r.Case(fmt.Sprintf("%s|ech|%s|failed", family(j.t.Name), val), false)
+					return
+				}
+				label := map[string]string{"target": family(j.t.Name), "dim": "ech", "val": val}
+				compareStates(r, h, label, map[string]any{"target": j.t.Name, "ech": val, "secret": secret}, 5000+i*2+round)
+				if h.CState.ECHAccepted && h.SState.ECHAccepted {
+					r.Count("ech_accepted_compared", 1)
+					if h.CState.ServerName != secret {
+						r.Violation(map[string]string{"kind": "ech_server_name", "target": family(j.t.Name)}, fmt.Sprintf("%s: ECH accepted but ConnectionState.ServerName is %q, not the inner name %q", j.t.Name, h.CState.ServerName, secret), nil)
+					}
+					if h.CState.DidResume && h.SState.DidResume {
+						r.Count("ech_resumed_compared", 1)
+					}
+				}
+				r.Case(fmt.Sprintf("%s|ech|%s|accepted=%v|resumed=%v", family(j.t.Name), val, h.CState.ECHAccepted, h.CState.DidResume), true)
+			}
+		})
+		r.Floor("ech_accepted_compared", int64(mon.Pick(40, 800)))
+	}
 	r.Floor("compared", 500)
 	r.Floor("exporters_compared", 2000)
 	r.Floor("resumed_compared", 20)
